@@ -156,6 +156,8 @@ def compare_events(exp_log, closure, targets, got_events, ok):
     """Binding B: the recorded execution is the behaviour the specification prescribes, step by step."""
     diff = []
     steps = [e for e in got_events if e[0] in ("begin", "end", "resolve", "print")]
+    if not got_events and exp_log:
+        return [("hooks-silent",)]
     if steps != exp_log:
         n = next((i for i, (a, b) in enumerate(zip(steps, exp_log)) if a != b), min(len(steps), len(exp_log)))
         diff.append(("recorded steps diverge from the specification at step %d" % (n + 1),
@@ -287,6 +289,7 @@ def run_cfg(ctx, cfg, entry, sample_mod=1, paired=False, focus=None, tag="rd"):
     blocks = tlaval.split_dump_blocks(res.dump_path)
     tlc.cleanup(res)
     results = core.pmap(worker, [(b, entry, sample_mod, paired) for b in blocks], chunksize=50)
+    silent = 0
     for r in results:
         if r is None:
             continue
@@ -301,9 +304,16 @@ def run_cfg(ctx, cfg, entry, sample_mod=1, paired=False, focus=None, tag="rd"):
         if r["nt"]:
             ctx.nontriv(cfg[:10] + r["key"])
         for b in r.get("bad", []):
+            if b["kind"] == "trace" and b["diff"] and b["diff"][0][0] == "hooks-silent":
+                silent += 1
+                continue
             if focus is not None and not focus(b):
                 continue
             ctx.violation(b)
+    if silent:
+        from . import tlc as _t
+        raise _t.MachineryError("the reader hooks did not fire in %d executions: is the OPENCYPHAL_PYDSDL_VERIF instrumentation "
+                                "present in %s?" % (silent, core.REPO))
     return results
 
 def run_c17(ctx):
